@@ -135,22 +135,29 @@ func c16Window(point, cause string, seed uint64, pfx string) {
 			out.Inconclusive("publisher", nil)
 			return
 		}
-		// 10 of these fill V's outgoing ring, the next delivery waits for space there. They are sent
-		// one by one behind a PINGREQ/PINGRESP barrier until 8 are through, then 5 at once (7.5 KB):
-		// P's own inbound ring never holds more than 8 KB, so P's receiver never waits for space and the
-		// only producer that can reach the armed point is P's processor on V's ring
-		for k := 0; k < 13; k++ {
-			P.SendPacket(&rc.Packet{Type: rc.PUBLISH, Topic: []byte("to/v"), Payload: spec.MakePayload(uint64(k+1), 0, 1500)})
-			if k < 8 {
-				P.SendPacket(&rc.Packet{Type: rc.PINGREQ})
-				want := k + 1
-				if P.WaitFor(func(l []rawclient.Event, closed bool) bool { return countType(l, rc.PINGRESP) >= want }, 10*time.Second) != nil {
-					out.Inconclusive("publisher barrier", params)
-					return
-				}
-			}
-			if k == 7 {
+		// About 10 of these fill V's outgoing ring (plus what V's client took before it stopped reading),
+		// then a delivery waits for space there. They are sent one by one, each behind a PINGREQ/PINGRESP
+		// barrier, so P's own inbound ring never holds more than one of them: P's receiver never waits
+		// for space and the only producer that can reach the armed point is P's processor on V's ring
+		reached := false
+		for k := 0; k < 60 && !reached; k++ {
+			if k == 8 {
 				atomic.StoreInt32(&armed, 1)
+			}
+			P.SendPacket(&rc.Packet{Type: rc.PUBLISH, Topic: []byte("to/v"), Payload: spec.MakePayload(uint64(k+1), 0, 1500)})
+			P.SendPacket(&rc.Packet{Type: rc.PINGREQ})
+			want := k + 1
+			// either the barrier comes back (the delivery fitted) or the delivery is waiting for space in V's ring
+			for w8 := 0; w8 < 400 && !reached; w8++ {
+				if P.WaitFor(func(l []rawclient.Event, closed bool) bool { return countType(l, rc.PINGRESP) >= want }, 5*time.Millisecond) == nil {
+					break
+				}
+				select {
+				case <-hit:
+					reached = true
+					hit <- struct{}{}
+				default:
+				}
 			}
 		}
 	}
